@@ -229,11 +229,68 @@ def fresh_substitution(ctx, py: PyRepo):
            f'interpreted, so a shared object makes earlier steps use the last step\'s plugs', py.where(SEM, fn))
 
 
+def name_wrapping(ctx, py: PyRepo):
+    """Kore names are wrapped into matching-logic symbols by prefixing (`'ksym_' + name`) and recovered when a substituted term is
+    resolved back to its K symbol (functional axioms of a step).  The recovery must be the inverse of the prefixing for EVERY name:
+    cut exactly the prefix (removeprefix / a slice of its length) under a startswith guard.  `str.lstrip(prefix)` strips a character
+    SET and mangles every name that begins with one of the prefix's letters."""
+    mi = py.module(SEM)
+    n = 0
+    for c in mi.classes.values():
+        wrap, unwrap = c.methods.get('aml_symbol'), c.methods.get('unwrap_kore_name')
+        if wrap is None or unwrap is None:
+            continue
+        pre = None
+        for x in ast.walk(wrap):
+            if isinstance(x, ast.BinOp) and isinstance(x.op, ast.Add) and isinstance(x.left, ast.Constant) and isinstance(x.left.value, str) \
+                    and ast.unparse(x.right) == 'self.name':
+                pre = x.left.value
+        ctx.require(pre is not None, f'{c.name}.aml_symbol: prefixing idiom not recognised')
+        n += 1
+        where = py.where(SEM, unwrap)
+        rets = [r.value for r in ast.walk(unwrap) if isinstance(r, ast.Return) and r.value is not None
+                and not (isinstance(r.value, ast.Constant) and r.value.value is None)]
+        ok, why = bool(rets), 'no value returned'
+        for v in rets:
+            good = False
+            if isinstance(v, ast.Call) and isinstance(v.func, ast.Attribute) and v.func.attr == 'removeprefix' and len(v.args) == 1 \
+                    and isinstance(v.args[0], ast.Constant) and v.args[0].value == pre:
+                good = True
+            if isinstance(v, ast.Subscript) and isinstance(v.slice, ast.Slice) and v.slice.upper is None and v.slice.lower is not None \
+                    and ast.unparse(v.slice.lower) in (str(len(pre)), f'len({pre!r})'):
+                good = True
+            if not good:
+                ok = False
+                why = (f'it returns `{ast.unparse(v)[:70]}`' + (': str.lstrip / strip remove any leading characters from the SET '
+                       f'{sorted(set(pre))}, so a name such as `succ` or `map` loses letters' if isinstance(v, ast.Call) and isinstance(v.func, ast.Attribute)
+                       and v.func.attr in ('lstrip', 'strip') else ''))
+        guard = any(isinstance(x, ast.Call) and isinstance(x.func, ast.Attribute) and x.func.attr == 'startswith' and x.args
+                    and isinstance(x.args[0], ast.Constant) and x.args[0].value == pre for x in ast.walk(unwrap))
+        ctx.ob('name-wrapping', f'{c.name}.unwrap_kore_name', ok and guard,
+               f'{c.name}.unwrap_kore_name must undo `{pre!r} + name` exactly: ' + (why if not ok else 'no startswith guard for the prefix')
+               + '; a mangled name resolves to no (or another) K symbol and a correctly chained trace is refused', where, facts={'prefix': pre})
+    ctx.floor('name-wrapping', 1)
+
+
 def run(ctx):
     py = PyRepo.get()
     rewrite_event(ctx, py)
     conversion_scope(ctx, py)
     fresh_substitution(ctx, py)
+    name_wrapping(ctx, py)
+    # the proof of a step is `dynamic_inst(load_axiom(rule), substitution)`: the module is accepted only if Instantiate, Load and the
+    # publishes are written the way the checker reads them (rows shared with C02), in particular the pairing of ids and plugs for a
+    # substitution whose keys are not in ascending order (the order of the LLVM hint)
+    from ..core import machine as M
+    from ..core.rustfacts import Rust
+    from ..core.wiring import Wiring
+    from . import c02, c05
+    r = Rust.get()
+    w = Wiring(py)
+    arms = M.rust_arms(r)
+    ops, dec = c02.py_opcodes(py), c05.decode_table(r)
+    for meth in ('instantiate', 'load', 'publish_axiom', 'publish_claim', 'publish_proof'):
+        c02.method_row(ctx, w, meth, arms, ops, dec)
     ctx.floor('rewrite-typestate', 9)
     ctx.floor('scope-allocator', 4)
     ctx.floor('scope-per-axiom', 3)
